@@ -18,9 +18,12 @@ type nElem map[string]string
 type nDoc struct {
 	id    string
 	title string
-	emps  []nElem // name, role
+	emps  []nElem // name, role (an element may have neither: it then holds only its tags)
+	tags  [][]string // per employee: the tag objects inside it
 	offs  []nElem // city
 }
+
+var c20Tags = []string{"red", "blue", "green"}
 
 func c20Mapping(nested bool) mapping.IndexMapping {
 	m := bleve.NewIndexMapping()
@@ -40,6 +43,9 @@ func c20Mapping(nested bool) mapping.IndexMapping {
 	emps := mk()
 	emps.AddFieldMappingsAt("name", kw())
 	emps.AddFieldMappingsAt("role", kw())
+	tags := mk() // a second nesting level: every employee has an array of tag objects
+	tags.AddFieldMappingsAt("tag", kw())
+	emps.AddSubDocumentMapping("tags", tags)
 	dm.AddSubDocumentMapping("emps", emps)
 	offs := mk()
 	offs.AddFieldMappingsAt("city", kw())
@@ -57,7 +63,18 @@ func genNDoc(r *Rng, i int) nDoc {
 	d := nDoc{id: fmt.Sprintf("p%03d", i), title: c20Titles[r.Intn(3)]}
 	ne := []int{0, 1, 2, 2, 3}[r.Intn(5)]
 	for k := 0; k < ne; k++ {
-		d.emps = append(d.emps, nElem{"name": c20Names[r.Intn(3)], "role": c20Roles[r.Intn(3)]})
+		e := nElem{"name": c20Names[r.Intn(3)], "role": c20Roles[r.Intn(3)]}
+		nt := []int{0, 0, 1, 2}[r.Intn(4)]
+		if r.Chance(15) { // an element with no field of its own, only the inner array
+			e = nElem{}
+			nt = 1 + r.Intn(2)
+		}
+		var ts []string
+		for j := 0; j < nt; j++ {
+			ts = append(ts, c20Tags[r.Intn(3)])
+		}
+		d.emps = append(d.emps, e)
+		d.tags = append(d.tags, ts)
 	}
 	no := []int{0, 1, 2}[r.Intn(3)]
 	for k := 0; k < no; k++ {
@@ -79,26 +96,46 @@ func (d nDoc) asMap() map[string]interface{} {
 		}
 		return out
 	}
-	mp["emps"] = toArr(d.emps)
+	emps := toArr(d.emps)
+	for i, ts := range d.tags {
+		if len(ts) > 0 {
+			arr := make([]interface{}, len(ts))
+			for j, tg := range ts {
+				arr[j] = map[string]interface{}{"tag": tg}
+			}
+			emps[i].(map[string]interface{})["tags"] = arr
+		}
+	}
+	mp["emps"] = emps
 	mp["offs"] = toArr(d.offs)
 	return mp
 }
 
 func (d nDoc) tokens() string {
-	var sb strings.Builder
-	fmt.Fprintf(&sb, "%s 1 %s %s 2", hs(d.id), hs("title"), hs(d.title))
-	wr := func(name string, es []nElem, fields []string) {
-		fmt.Fprintf(&sb, " %s %d", hs(name), len(es))
-		for _, e := range es {
-			fmt.Fprintf(&sb, " %d", len(fields))
-			for _, f := range fields {
-				fmt.Fprintf(&sb, " %s %s", hs(f), hs(e[f]))
+	// the document's own object, then every array element at any depth: array path, indexes, fields
+	var nodes []string
+	node := func(apath, idx string, fields []string, e map[string]string) {
+		var sb strings.Builder
+		n := 0
+		for _, f := range fields {
+			if v, ok := e[f]; ok {
+				fmt.Fprintf(&sb, " %s %s", hs(f), hs(v))
+				n++
 			}
 		}
+		nodes = append(nodes, fmt.Sprintf("%s %s %d%s", apath, idx, n, sb.String()))
 	}
-	wr("emps", d.emps, []string{"name", "role"})
-	wr("offs", d.offs, []string{"city"})
-	return sb.String()
+	node("-", "-", []string{"title"}, map[string]string{"title": d.title})
+	for i, e := range d.emps {
+		node(hs("emps"), fmt.Sprint(i), []string{"name", "role"}, e)
+		for j, tg := range d.tags[i] {
+			node(hs("emps")+"."+hs("tags"), fmt.Sprintf("%d.%d", i, j), []string{"tag"}, map[string]string{"tag": tg})
+		}
+	}
+	for i, e := range d.offs {
+		node(hs("offs"), fmt.Sprint(i), []string{"city"}, e)
+	}
+	return fmt.Sprintf("%s %d %s", hs(d.id), len(nodes), strings.Join(nodes, " "))
 }
 
 type nq struct {
@@ -112,10 +149,11 @@ type nq struct {
 
 func genNLeaf(r *Rng, only string) nq {
 	type lf struct{ arr, field string; vals []string }
-	all := []lf{{"", "title", c20Titles}, {"emps", "name", c20Names}, {"emps", "role", c20Roles}, {"offs", "city", c20Cities}}
+	all := []lf{{"", "title", c20Titles}, {"emps", "name", c20Names}, {"emps", "role", c20Roles}, {"offs", "city", c20Cities},
+		{"emps.tags", "tag", c20Tags}, {"emps.tags", "tag", c20Tags}}
 	var cands []lf
 	for _, l := range all {
-		if only == "*" || l.arr == only {
+		if only == "*" || l.arr == only || strings.HasPrefix(l.arr, only+".") {
 			cands = append(cands, l)
 		}
 	}
@@ -125,7 +163,11 @@ func genNLeaf(r *Rng, only string) nq {
 	arrTok := "-"
 	if l.arr != "" {
 		path = l.arr + "." + l.field
-		arrTok = hs(l.arr)
+		comps := strings.Split(l.arr, ".")
+		for i := range comps {
+			comps[i] = hs(comps[i])
+		}
+		arrTok = strings.Join(comps, ".")
 	}
 	q := bleve.NewTermQuery(v)
 	q.SetField(path)
